@@ -483,18 +483,24 @@ def _run(check: Check, tier: str, seed: int, replay: Optional[str], t0: float) -
     for d in disagreements[:5]:
         red.append("correspondence: " + d["why"][:300])
 
-    # failing-input search when something is red and the oracle has found nothing yet
+    # failing-input search when something is red and the oracle has found nothing new yet
+    # (violations that are known findings do not count: they say nothing about what broke)
     searched = 0
-    if red and not violations and not replay:
+    known_now = {f["site"] for f in known_findings().get("findings", []) if f["property"] == pid}
+    if red and not [v for v in violations if v.get("site") not in known_now] and not replay:
         budget = 60 if tier == "quick" else 600
         ts = time.time()
         extra = [d["case"] for d in disagreements]
-        while time.time() - ts < budget and not violations:
+        while time.time() - ts < budget:
             batch = check.search_cases(rng, tier)
             if not batch:
                 break
             st2 = {"evaluations": 0, "histogram": {}, "keys": set(), "samples": [], "model_requests": 0}
-            _, violations = _eval_cases(check, batch, False, st2)
+            _, more = _eval_cases(check, batch, False, st2)
+            violations = violations + more
+            if [v for v in more if v.get("site") not in known_now]:
+                searched += st2["evaluations"]
+                break
             searched += st2["evaluations"]
             if searched > 200000:
                 break
